@@ -8,7 +8,8 @@
    an operator failure IS the report of entry 0 under both arithmetics. *)
 From Coq Require Import List NArith ZArith QArith Qcanon Bool.
 From ACB Require Import Base.Outcome Base.QcExtra Base.Fit Base.Arith Model.Tx Model.Ledger
-     Model.Sfl Model.DeltaList Model.App Proofs.DecTransfer Proofs.DecScan Exec.Codec.
+     Model.Sfl Model.DeltaList Model.App Proofs.DecTransfer Proofs.DecScan Exec.Codec
+     Proofs.DecRowError Proofs.DecAccumulate.
 Import ListNotations.
 Local Open Scope Z_scope.
 
@@ -78,12 +79,47 @@ Definition run_probe : P (list Z) :=
   let secs := securities sorted in
   pret (Z.of_nat (length secs) :: flat_map (osec_probe inits sorted) secs).
 
+(* entry 2 (used by the check of C01): the class of C01_rounding_error_accumulates
+   evaluated on a case.  Per security: the rounded and the exact ledger are run,
+   the smallest k <= 13 with [in_class k dsd dse] (and every row valid) is
+   searched; output: security, 1, k (or -1), the per-row constant [cR k], the
+   number n of rows both runs report, and for each of these rows the EXACT
+   ledger's balances, cost base and gain.  Same case encoding as entry 0. *)
+Fixpoint min_class (fuel k : nat) (dsd dse : list delta) : option nat :=
+  match fuel with
+  | O => None
+  | S f => if in_class k dsd dse then Some k else min_class f (S k) dsd dse
+  end.
+
+Definition oerr_row (de : delta) : list Z := ostatus (d_post de) ++ oopt (d_gain de).
+
+Definition osec_err (inits : list (N * status)) (all : list tx) (s : N) : list Z :=
+  let init := init_for inits s in
+  match replace_global_splits (match init with Some _ => true | None => false end) (txs_of_sec s all) with
+  | Ok l =>
+      let '(dsd, _) := run dec init l in
+      let '(dse, _) := run exact init l in
+      let n := Nat.min (length dsd) (length dse) in
+      let mk := if forallb valid_tx l then min_class 14 0 dsd dse else None in
+      Z.of_N s :: 1 ::
+      (match mk with Some k => Z.of_nat k :: oQ (cR k) | None => [-1; 0; 1] end)
+      ++ Z.of_nat n :: flat_map oerr_row (firstn n dse)
+  | _ => [Z.of_N s; 0; -1; 0; 1; 0]
+  end.
+
+Definition run_errclass : P (list Z) :=
+  a <~ pZ ;; inits <~ plist pinit ;; rows <~ plist ptx ;;
+  let sorted := sort_txs rows in
+  let secs := securities sorted in
+  pret (Z.of_nat (length secs) :: flat_map (osec_err inits sorted) secs).
+
 Definition dispatch (l : list Z) : list Z :=
   match l with
   | mode :: r =>
       let p := match mode with
                | 0 => run_rep
                | 1 => run_probe
+               | 2 => run_errclass
                | _ => fun _ => None
                end in
       match p r with
